@@ -163,6 +163,8 @@ type world struct {
 	keyCached   string
 	hashRoute   map[string]int
 	static      bool
+	lastPB      []int64 // time the endpoint was blocked or last probed
+	reachSince  []int64 // time since which the endpoint's server accepts connections
 }
 
 func (w *world) now() int64 { return (vm.Now() - w.start) / 1e9 }
@@ -252,6 +254,7 @@ func (w *world) apply(ev string) {
 				w.bad = append(w.bad, fmt.Sprintf("blocked-endpoint-probed-more-than-once-in-30s\nep%d probes at t=%d and t=%d", i, w.lastProbe[i], w.now()))
 			}
 			w.lastProbe[i] = w.now()
+			w.lastPB[i] = w.now()
 		}
 		if res == "ok" {
 			w.consecFails[i] = 0
@@ -280,6 +283,9 @@ func (w *world) apply(ev string) {
 		var i int
 		var m string
 		fmt.Sscanf(ev, "set%d=%s", &i, &m)
+		if w.servers[i].mode == refusing && m != "r" {
+			w.reachSince[i] = w.now()
+		}
 		w.servers[i].set(map[string]int{"h": healthy, "r": refusing, "s": silent}[m])
 		vm.Log("t=%d %s", w.now(), ev)
 	case strings.HasPrefix(ev, "adv"):
@@ -287,18 +293,19 @@ func (w *world) apply(ev string) {
 		vm.Sleep(int64(sec) * 1e9)
 		vm.Log("t=%d %s", w.now(), ev)
 	}
-	after, _, _ := w.snapshot()
-	w.judge(ev, before, after)
+	after, pqAfter, _ := w.snapshot()
+	w.judge(ev, before, after, pqAfter)
 }
 
 // judge evaluates the transition invariants.
-func (w *world) judge(ev string, before, after []tars.VerifEpState) {
+func (w *world) judge(ev string, before, after []tars.VerifEpState, pqAfter int) {
 	for i := range after {
 		if i >= len(before) {
 			continue
 		}
 		left := before[i].InActive && !after[i].InActive
 		if left {
+			w.lastPB[i] = w.now()
 			if w.failsSince[i] == 0 {
 				w.bad = append(w.bad, fmt.Sprintf("endpoint-without-failed-calls-taken-out-of-rotation\nep%d at event %s", i, ev))
 			} else if w.failsSince[i] < 2 {
@@ -307,6 +314,15 @@ func (w *world) judge(ev string, before, after []tars.VerifEpState) {
 		}
 	}
 	if strings.HasPrefix(ev, "adv") {
+		// a blocked endpoint that can be connected to is queued for a probe once 30 s have passed
+		// since it was blocked / last probed (the checker runs every second: allow one tick)
+		for i := range after {
+			blocked := after[i].HasAdapter && !after[i].Status
+			// (a connection attempt that failed while the server was down also restarts the 30 s)
+			if blocked && w.servers[i].mode != refusing && w.now()-w.lastPB[i] >= 32 && w.now()-w.reachSince[i] >= 32 && pqAfter == 0 {
+				w.bad = append(w.bad, fmt.Sprintf("blocked-reachable-endpoint-not-queued-for-a-probe-after-30s\nep%d blocked/probed at t=%d, now t=%d", i, w.lastPB[i], w.now()))
+			}
+		}
 		// a status check has run (the checker ticks every second)
 		for i := range after {
 			if w.consecFails[i] >= 5 && w.now()-w.firstFailAt[i] >= 5+1 {
@@ -409,6 +425,7 @@ func runHistory(n int, hist []string) (w *world) {
 		s.listen()
 		w.servers = append(w.servers, s)
 	}
+	w.lastPB, w.reachSince = make([]int64, n), make([]int64, n)
 	w.failsSince, w.consecFails = make([]int, n), make([]int, n)
 	w.firstFailAt, w.lastProbe = make([]int64, n), make([]int64, n)
 	for i := range w.lastProbe {
@@ -426,7 +443,7 @@ func runHistory(n int, hist []string) (w *world) {
 
 var longHistories = map[string][]string{
 	"refuse-block-probe-recover":           {"set0=r", "call", "call", "call", "call", "call", "call", "call", "call", "call", "call", "adv5", "adv1", "call", "call", "call", "adv30", "set0=h", "adv30", "call", "call", "call", "call"},
-	"silent-block-probe-fail-then-recover": {"set0=s", "call", "call", "call", "call", "call", "call", "call", "call", "call", "call", "adv1", "call", "call", "adv30", "call", "call", "adv30", "set0=h", "call", "call", "adv30", "call", "call"},
+	"silent-block-probe-fail-then-recover": {"set0=s", "call", "call", "call", "call", "call", "call", "call", "call", "call", "call", "adv1", "call", "call", "adv30", "call", "call", "adv30", "adv5", "call", "set0=h", "call", "call", "adv30", "adv5", "call", "call"},
 	"all-blocked":                          {"set0=r", "set1=r", "call", "call", "call", "call", "call", "call", "call", "call", "call", "call", "call", "adv5", "adv1", "call", "call", "set1=h", "call", "call", "adv30", "call", "call"},
 	"ratio-rule":                           {"call", "call", "set0=r", "call", "call", "call", "call", "set0=h", "adv1", "call", "call", "adv60", "call", "call"},
 	"flapping":                             {"set0=r", "call", "call", "call", "call", "set0=h", "call", "call", "adv5", "set0=r", "call", "call", "call", "call", "call", "call", "adv1", "adv5", "call"},
